@@ -16,6 +16,9 @@ import (
 
 var patchKeys = []string{"a", "b", "c", "k0", "k1", "x/y", "~", "~0", "~1", "a~b", "m/n/o", "", "0", "1", "12", "-", "ü", " sp", "q\"q", "~01", "/lead", "trail/"}
 
+var c19Numbers = []float64{0, -1, 2147483647, 2147483648, -2147483649, 4294967296, 9007199254740991, 9007199254740992, 9007199254740994,
+	9223372036854775807, -9223372036854775808, 18446744073709551615, 1e21, -1e21, 1.7976931348623157e308, 5e-324, 1e-7, 0.1, 123456789.12345679}
+
 // genJSON generates a JSON value without nulls. top: objects only.
 func genJSON(r *rand.Rand, depth int, g *crdt.Gen) interface{} {
 	k := r.Intn(10)
@@ -27,6 +30,11 @@ func genJSON(r *rand.Rand, depth int, g *crdt.Gen) interface{} {
 		case 1:
 			return r.Intn(2) == 0
 		case 2:
+			if r.Intn(4) == 0 {
+				// numbers at the edges of the integer and float ranges (every JSON number is a
+				// float64 for the document): a target is a target whatever its magnitude
+				return c19Numbers[r.Intn(len(c19Numbers))]
+			}
 			return float64(r.Intn(100)) + 0.25
 		}
 		return g.Tag()
